@@ -224,7 +224,7 @@ def main(chk):
         hist[fname] = hist.get(fname, 0) + 1
         chk.count(prog, True)
         imp = r["impl"]
-        if not (imp["kind"] == "value" and imp.get("out") == exp):
+        if not (imp["kind"] == "value" and (imp.get("out") == exp or norm_err_msgs(imp.get("out")) == norm_err_msgs(exp))):
             viol.append(("iterator history (%s): the per-iterator state machines predict %r, implementation printed %r (%s)" % (
                 fname, exp, imp.get("out"), imp.get("errk")),
                 {"program": prog, "expected_out": exp, "impl": {k: imp.get(k) for k in ("kind", "repr", "errk", "errmsg", "out")}},
